@@ -181,6 +181,12 @@ func c06scenarios(probe string) []c06scn {
 		files := map[string]string{"x/v1/t.go": "package v1\n\ntype T struct{}\n", "y/v1/t.go": "package v1\n\ntype T struct{}\n", "use/use.go": src("use"), "use2/use.go": src("use2")}
 		out = append(out, c06scn{"one file per interface, imports and parameter names that collide across files", files, cfg})
 	}
+	{ // every package profile of C08's composition oracle at once: both built-in templates and a custom one, all
+		// formatters, shared output package names, headers, schema settings, replace-type, recursion with exclusion
+		// lists, regex selection, same-named source packages, several output files per package
+		files, cfg := c08AllProfiles(filepath.Join(filepath.Dir(probe), "c08all"))
+		out = append(out, c06scn{"all composition profiles in one configuration", files, cfg})
+	}
 	return out
 }
 
